@@ -4,3 +4,8 @@ mod multinomial;
 pub mod vanilla;
 
 pub use data::RegretParams;
+
+#[cfg(feature = "verif")]
+pub(crate) fn multinomial_for_verif(probs: &[f64]) -> multinomial::Multinomial<'_> {
+    multinomial::Multinomial::new(probs)
+}
